@@ -215,3 +215,42 @@ def run_adaptive(tier='quick', seed=0):
                 fails.append(dict(signature='c01:adaptive-' + f.split(':')[0][:30], what=f, input=dict(adaptive=True, n_samples=n, batch_size=b, n_sim=n_sim, seed=sd)))
                 return dict(name='rejection-adaptive-distance', bound='4 configurations x 2 seeds', rule='two summaries of very different scale', cases=cases, nontrivial=nontriv, failures=fails)
     return dict(name='rejection-adaptive-distance', bound='2-4 configurations x 2 seeds', rule='two summaries of very different scale', cases=cases, nontrivial=nontriv, failures=fails)
+
+
+# ---------------------------------------------------------------- budget arithmetic in machine floats (the proof tier treats floats as reals)
+def run_budget_grid(tier='quick', seed=0):
+    """`with a simulation budget (n_sim, or ceil(n_samples/quantile)) exactly ceil(budget/batch_size) batches are
+    consumed`, the formula evaluated literally in Python floats: the real set_objective on a grid of
+    (n_samples, quantile, batch_size); a disagreement is confirmed by an end-to-end run before it is reported."""
+    elfi = native.import_elfi()
+    m = build_model(elfi, FINITE)
+    nmax, bmax = (60, 12) if tier == 'quick' else (150, 24)
+    qs = sorted({k / 100 for k in range(1, 100)} | {k / 7 for k in range(1, 7)} | {1 / 3, 2 / 3, 1.0, 0.001, 0.005})
+    cases = 0
+    fails = []
+    for b in range(1, bmax + 1):
+        rej = elfi.Rejection(m['d'], batch_size=b, seed=seed)
+        for n in range(1, nmax + 1):
+            for q in qs:
+                cases += 1
+                rej.set_objective(n, quantile=q)
+                want = math.ceil(math.ceil(n / q) / b)
+                got = rej.objective.get('n_batches')
+                if got != want and not fails:
+                    f = None
+                    if want <= 400 and got <= 400:
+                        try:
+                            f = run_case(elfi, FINITE, n, b, 'quantile', q, seed)
+                        except Exception as e:
+                            f = '%s: %s' % (type(e).__name__, str(e)[:200])
+                    f = f or 'set_objective(n_samples=%d, quantile=%r) with batch_size=%d plans %r batches, ceil(ceil(n_samples/quantile)/batch_size) = %d' % (n, q, b, got, want)
+                    fails.append(dict(signature='c01:budget-float-arithmetic', what=f, input=dict(values=FINITE, n_samples=n, batch_size=b, form='quantile', arg=q, seed=seed)))
+            for ns in (n, n + 1, 2 * b + 1, 3 * b, 7 * n + 3):
+                cases += 1
+                rej.set_objective(n, n_sim=ns)
+                if rej.objective.get('n_batches') != math.ceil(ns / b) and not any(x['signature'] == 'c01:budget-n_sim' for x in fails):
+                    fails.append(dict(signature='c01:budget-n_sim', what='set_objective(n_samples=%d, n_sim=%d) with batch_size=%d plans %r batches, expected %d' % (n, ns, b, rej.objective.get('n_batches'), math.ceil(ns / b)),
+                                      input=dict(values=FINITE, n_samples=n, batch_size=b, form='n_sim', arg=ns, seed=seed)))
+    return dict(name='rejection-budget-grid', bound='n_samples<=%d, batch_size<=%d, %d quantiles (k/100, k/7, 1/3, 2/3, 1, .001, .005), 5 n_sim per n' % (nmax, bmax, len(qs)),
+                rule='planned batches of the real set_objective vs the formula of the statement in Python floats; first disagreement re-run end-to-end',
+                cases=cases, nontrivial=cases, failures=fails)
